@@ -20,9 +20,10 @@ ASSUMPTIONS = [
     'task.wait(); the kill-delay timer (reactivex.timer) fires when the script says so',
     'producer output is visible to the observer at the instant it is written (no NFS delay); output written after the '
     'producers-finished notification is excluded by hypothesis in C13_sees_final_output',
-    '0 to 3 producers, duck-typed job, producer and task objects; the ComponentState.stageIn subscription (reactivex.merge of '
-    'the producers notifyFinished) that calls notify_all_producers_finished is not run: the script delivers the notification '
-    '(in most scripts after the last producer has finished writing); the optimizer-driven repeat interval is disabled; '
+    '0 to 3 producers, duck-typed job, producer and task objects; in the engine-level scripts the script delivers the '
+    'producers-finished notification; in the producer-level scripts the real ComponentState.stageIn runs (on a duck-typed '
+    'ComponentState whose producers\' notifyFinished are rx Subjects, with an immediate scheduler instead of the thread pool) '
+    'and delivers it; the optimizer-driven repeat interval is disabled; '
     'Engine.emit_now (state emission on rx pools) and archive_stream are stubbed',
     'task durations are positive (a zero duration makes _perfData_launch_succeeded divide by zero)',
 ]
@@ -91,6 +92,25 @@ def coq_obs(o):
             'b_consume := %s; b_pf := %s; b_suicide := %s; b_ll := %s; b_actions := %s; b_lasts := %s |}' % (
                 cZ(o['launches']), cZ(o['retries']), cbool(o['cancel']), cbool(o['kc']), cbool(o['alive']), o['reason'],
                 cbool(o['consume']), cbool(o['pf']), cbool(o['suicide']), cZ(o['ll']), cZ(o['actions']), cZ(o['lasts'])))
+
+
+def coq_pev(ev):
+    if is_out(ev):
+        return '(PWrite %d)' % int(ev[3:] or 0)
+    if ev.startswith('Fin'):
+        return '(PFinish %d)' % int(ev[3:])
+    return '(PEnv %s)' % ev
+
+
+def coq_case3(cfg, steps, res):
+    """a producer-level script (stageIn mode): (cfg, producers alive at stageIn, script, outputs)"""
+    xs = clist(['{| x_launch := %s; x_pf := %s; x_rc := %s |}' % (cZ(t), cbool(p), copt(rc, cZ))
+                for (t, p, rc, _lo, _k) in res['execs']])
+    sts = clist(['(%s, (%s : list pevent), %s)' % (cZ(0 if i == 0 else st['dt']), clist([coq_pev(e) for e in st['evs']]),
+                                                   coq_out(st['o'])) for i, st in enumerate(steps)])
+    return '(%s, (%s : list bool), %s, (%s, %s, (%s : list exec)))' % (
+        coq_cfg(cfg), clist([cbool(b) for b in cfg['alive0']]), sts,
+        clist([coq_obs(o) for o in res['obs']]), cbool(res['finished']), xs)
 
 
 def coq_case(cfg, steps, res):
@@ -185,12 +205,35 @@ def predicate(ctx, cfg, steps, res):
 def explore(ctx, cases, label='C13 trace'):
     drv = c13_impl.Driver()
     terms = []
+    terms3 = []
     try:
         for cfg, steps in cases:
             res = drv.run_case(cfg, steps)
             used = steps[:res['nsteps']]
-            predicate(ctx, cfg, used, res)
-            notified_running = any('Notify' in st['evs'] or st['o'].get('ntf') for st in used)
+            stagein = cfg.get('alive0') is not None
+            # stageIn mode: the predicate looks at what reached the engine (writes actually made, the notification
+            # delivered by the real ComponentState.stageIn subscription)
+            seen = [dict(st, evs=res['eff'][i]) for i, st in enumerate(used)] if stagein else used
+            predicate(ctx, cfg, seen, res)
+            if stagein:
+                # "all of its producers have finished": the notification reaches the engine exactly when the last
+                # living producer finishes (at stageIn when there is none), and at most once
+                alive = list(cfg['alive0'])
+                want = [0] if not any(alive) else []
+                for i, st in enumerate(used):
+                    for ev in st['evs']:
+                        if ev.startswith('Fin') and int(ev[3:]) < len(alive) and alive[int(ev[3:])]:
+                            alive[int(ev[3:])] = False
+                            if not any(alive):
+                                want.append(i)
+                got = [i for i, st in enumerate(seen) for ev in st['evs'] if ev == 'Notify']
+                if got != want:
+                    ctx.fail({'cfg': cfg, 'steps': used}, 'the producers-finished notification reached the engine at steps %s; '
+                             'the last living producer finished at steps %s' % (got, want))
+                ctx.count('stagein_scripts')
+                if any('Notify' in st['evs'] for st in seen):
+                    ctx.count('stagein_notification_delivered')
+            notified_running = any('Notify' in st['evs'] or st['o'].get('ntf') for st in seen)
             nontriv = bool(res['execs']) and notified_running
             ctx.case([cfg, used], nontriv)
             ctx.count('polls_%02d' % min(len(used), 16))
@@ -204,6 +247,9 @@ def explore(ctx, cases, label='C13 trace'):
                 ctx.count('kill_delay_timer_fired')
             if any(o['reason'].startswith('R?') for o in res['obs']):
                 ctx.disagree({'cfg': cfg, 'steps': used}, res['obs'], None, label + ': exit reason outside the model')
+                continue
+            if stagein:
+                terms3.append((coq_case3(cfg, used, res), cfg, used, res))
                 continue
             terms.append((coq_case(cfg, used, res), cfg, used, res))
             if nontriv:
@@ -220,6 +266,12 @@ def explore(ctx, cases, label='C13 trace'):
         ctx.disagree({'cfg': cfg, 'steps': used}, {'obs': res['obs'], 'finished': res['finished'],
                                                    'execs': [e[:3] for e in res['execs']]}, m,
                      label + ': RepeatingEngine/CreateMonitor vs Repeat.Model.run_steps')
+    bad = ctx.model_mismatches(HEADER, [t[0] for t in terms3], 'check_case3', chunk=250) if terms3 else []
+    for k, i in enumerate(bad):
+        _, cfg, used, res = terms3[i]
+        ctx.disagree({'cfg': cfg, 'steps': used}, {'obs': res['obs'], 'finished': res['finished'],
+                                                   'execs': [e[:3] for e in res['execs']], 'reached_engine': res['eff']}, '',
+                     label + ': ComponentState.stageIn + RepeatingEngine/CreateMonitor vs Repeat.Model.run_steps3 (producer model)')
 
 
 OUTCOME_PATTERNS = [
@@ -317,6 +369,60 @@ def gen_random(rng, thorough):
     return cfg, steps
 
 
+def gen_stagein(rng, thorough):
+    """a producer-level script: producers write while alive and finish; nobody scripts the notification"""
+    nprod = rng.choice([0, 1, 1, 2, 2, 2, 3])
+    cfg = CFG(retries=rng.choice([None, 0, 1, 2, 3, 5]), check_out=rng.random() < 0.9, has_delay=rng.random() < 0.25,
+              interval=rng.choice([5000, 7000, 10000, 12000]), t0=rng.choice([0, 100000, 123456]),
+              prods=[PR(rng.random() < 0.8, rng.random() < 0.75) for _ in range(nprod)], has_prod=nprod > 0)
+    cfg['alive0'] = [rng.random() < 0.9 for _ in range(nprod)]
+    n = rng.randint(3, 16 if thorough else 12)
+    fin = [rng.choice([None] + list(range(n)) * 4) for _ in range(nprod)]
+    steps = []
+    for i in range(n):
+        evs = []
+        for q in range(nprod):
+            if rng.random() < (0.3 if (fin[q] is None or i <= fin[q]) else 0.08):   # (a finished producer's write is not made)
+                evs.append('Out' if q == 0 else 'Out%d' % q)
+            if fin[q] == i or (fin[q] is not None and i > fin[q] and rng.random() < 0.03):
+                evs.append('Fin%d' % q)
+        rng.shuffle(evs)
+        r = rng.random()
+        if r < 0.015:
+            evs.append('Kill')
+        elif r < 0.08 and cfg['has_delay']:
+            evs.append('Suicide')
+        o = O(rc=rng.choice([0, 0, 1, 1, 2]), dur=rng.choice([1, 500, 1000, 4000, 7000, 26000]),
+              fail=rng.random() < 0.08, sui=cfg['has_delay'] and rng.random() < 0.1, re=rng.random() < 0.1)
+        steps.append(S(rng.choice([5000, 5000, 5001, 5500, 7000, 12000]), evs, o))
+    return cfg, steps
+
+
+def exhaustive_stagein(n):
+    """two same-stage repeating producers: every pair of finishing steps (or never) x outcome patterns x a few write patterns"""
+    cases = []
+    places = [None] + list(range(n))
+    writes = [((0,), (0,)), ((0, n - 1), (0,)), ((0,), (n // 2, n - 1)), ((n - 1,), ())]
+    for r in (0, 3):
+        for f0 in places:
+            for f1 in places:
+                for pat in OUTCOME_PATTERNS[:4]:
+                    for w in writes:
+                        steps = []
+                        for i in range(n):
+                            evs = []
+                            for q in (0, 1):
+                                if i in w[q]:
+                                    evs.append('Out' if q == 0 else 'Out1')
+                            if f0 == i:
+                                evs.append('Fin0')
+                            if f1 == i:
+                                evs.append('Fin1')
+                            steps.append(S(5000, evs, pat(i)))
+                        cases.append((CFG(retries=r, prods=[PR(), PR()], alive0=[True, True]), steps))
+    return cases
+
+
 def corpus():
     c = []
     # F13 (open): output older than the start, notified before the first poll; retries 0 / default 3 / 4 at exact 5 s
@@ -353,7 +459,9 @@ def run(ctx):
     ctx.rule = ('exhaustive: every placement of the producers-finished notification (before run(), in any sleep, never) x 6 task '
                 'outcome patterns x every placement of <= 2 producer writes, scripts of <= N polls (N=6 quick, 9 thorough), for a grid '
                 'of repeatRetries/interval/producer kinds; plus random scripts (<= 14/20 polls; jittered poll times, launch failures, '
-                'kill-delay timer between or during executions, external kill, late output); non-trivial = at least one launch and '
+                'kill-delay timer between or during executions, external kill, late output); plus producer-level scripts (0-3 producers that '
+                'write while alive and finish; the notification is delivered by the real ComponentState.stageIn subscription: exhaustive over '
+                'both finishing steps of two producers for <= 4/6 polls, and random); non-trivial = at least one launch and '
                 'the notification delivered; distinct by (cfg, consumed script)')
     cases = corpus()
     ctx.count('corpus_cases', len(cases))
@@ -371,6 +479,14 @@ def run(ctx):
     cases += ex
     for _ in range(40000 if thorough else 2000):
         cases.append(gen_random(rng, thorough))
+    # producer-level scripts run through the real ComponentState.stageIn subscription
+    st = []
+    for n in range(1, (6 if thorough else 4) + 1):
+        st += exhaustive_stagein(n)
+    ctx.count('exhaustive_stagein_cases', len(st))
+    cases += st
+    for _ in range(12000 if thorough else 1200):
+        cases.append(gen_stagein(rng, thorough))
     explore(ctx, cases)
 
 
